@@ -111,7 +111,6 @@ func c10Fat16Read(L int) {
 
 	vp.Unwind(L + 3)
 	vp.NoPanic()
-	vp.KnownPanic("KF-C10-1", "fat12/file.go:158")
 	n, err := f.Read(buf[:k])
 	vp.AllowPanic()
 	vp.Unwind(16)
